@@ -114,6 +114,29 @@ NidAfter(ps) == IF Capped(ps.bs) THEN ps.bs.nid ELSE Pop(ps.bs).nid
 DocumentOf(ps) == ResultOf(ps.bs)
 
 (***************************************************************************)
+(* The intrinsic KIND of a line (Grammar!Kinds) in a given matcher state:  *)
+(* what the code-point matcher takes the line for when asked in the fixed  *)
+(* order below.  Links real text to the kind-level specification           *)
+(* (MC_Layering) and tells which rejected lines are keyword lines (Layout).*)
+(***************************************************************************)
+Known(nm) == \E d \in DOMAIN LangNames : LangNames[d] = nm
+KindOf(l, ms) == LET D == Dialects[ms.dia] IN
+   IF ms.sep # <<>> THEN (IF StartsWith(LTrim(l), ms.sep) THEN "#DocStringSeparator" ELSE "#Other")
+   ELSE IF Empty(l).ok THEN "#Empty"
+   ELSE IF LangName(l) # <<>> /\ Known(LangName(l)) THEN "#Language"
+   ELSE IF Comment(l).ok THEN "#Comment"
+   ELSE IF TagLine(l).ok THEN "#TagLine"
+   ELSE IF Match("#FeatureLine", l, ms, D).ok THEN "#FeatureLine"
+   ELSE IF Match("#RuleLine", l, ms, D).ok THEN "#RuleLine"
+   ELSE IF Match("#BackgroundLine", l, ms, D).ok THEN "#BackgroundLine"
+   ELSE IF Match("#ScenarioLine", l, ms, D).ok THEN "#ScenarioLine"
+   ELSE IF Match("#ExamplesLine", l, ms, D).ok THEN "#ExamplesLine"
+   ELSE IF Match("#StepLine", l, ms, D).ok THEN "#StepLine"
+   ELSE IF DocSep(l, ms).ok THEN "#DocStringSeparator"
+   ELSE IF Row(l).ok THEN "#TableRow"
+   ELSE "#Other"
+
+(***************************************************************************)
 (* The same as a state machine over one source.                            *)
 (***************************************************************************)
 VARIABLES vLines,   \* the source, split into lines
